@@ -61,7 +61,8 @@ def syslog_value(rng, names):
     if r < 0.72:
         return casing(rng, b"LOG_LOG_" + n)
     if r < 0.8:
-        return rng.choice([b"XYZ_", b"LOG", b"LOG-", b"_", b"LOG_ ", b" "]) + n
+        # LOG_ anywhere but at the start is not a prefix
+        return rng.choice([b"XYZ_", b"LOG", b"LOG-", b"_", b"LOG_ ", b" ", b"SYSLOG_", b"xLOG_", b"local0,log_", b"LOG_x LOG_", b"A_LOG_", b"_LOG_"]) + casing(rng, n)
     if r < 0.9:
         return rng.choice([b"", b"A", b"LO", b"LOG", b"LOG_", b"LOG_LOG_", b"log_", b"0", b"6", b"(invalid)", b"AUTH ", b"AUTHX", b"AUT", b"LOCAL8", b"LOCAL", b"INFORMATION", b"\xff"])
     return n + rtext(rng, rng.choice([1, 3]))
